@@ -790,6 +790,13 @@ fn handle_next(
             if let Some(tt) = &t.t_partner {
                 tt.borrow_mut().b_partner = b.b_partner.clone();
             }
+            // The edges around the closed interval are direct neighbours from here on:
+            // ensure they do not cross before either of them ends.
+            if let Some(bb) = &b.b_partner {
+                if bb.borrow().will_overlap_top() {
+                    return Err(TriangulationError::Overlap(ptype, p));
+                }
+            }
         }
     };
     Ok(())
